@@ -259,7 +259,17 @@ func checkReportScores(w *W, e *m3.Environmental, c Case) {
 			w.Count("report_panicked")
 		}
 	}()
+	if Hash(c.Input)%4 == 0 {
+		// a client that edits the report it received (redacting, decorating): the next report of the same
+		// vector is built from the metrics again, not from what the client did to the earlier one
+		lib.Report{Level: 2, E: report.NewEnvironmental(e, report.WithOptionsLanguage(language.English))}.Scribble()
+		w.Count("reports_built_after_an_earlier_report_of_the_vector_was_overwritten_by_the_client")
+	}
 	rep := report.NewEnvironmental(e, report.WithOptionsLanguage(language.English))
+	sevWant := map[string]string{"None": "None", "Low": "Low", "Medium": "Medium", "High": "High", "Critical": "Critical"}
+	if s, ok := sevWant[e.Severity().String()]; ok && rep.SeverityValue != s {
+		w.Violate(Violation{Monitor: "C06", Check: "report severity field is the English name of the object's severity", Case: c, Observed: rep.SeverityValue, Expected: s})
+	}
 	for _, f := range []struct {
 		name, got string
 		want      float64
